@@ -30,6 +30,8 @@ type builderProg struct {
 	mk   func() (interface{}, func() interface{})
 	// must: member names the encoding has to carry whenever encoding succeeds
 	must []string
+	// want: members that must have exactly this JSON value
+	want map[string]string
 }
 
 func builderProgs() []builderProg {
@@ -43,7 +45,7 @@ func builderProgs() []builderProg {
 				s.SetProperty(n, *p)
 			}
 			return s, func() interface{} { return &spec.Schema{} }
-		}, nil},
+		}, nil, nil},
 		{"schema.AddExtension mixed case + ExtraProps", func() (interface{}, func() interface{}) {
 			s := spec.StringProperty().WithTitle("t")
 			s.AddExtension("X-Upper", 1)
@@ -51,46 +53,46 @@ func builderProgs() []builderProg {
 			s.AddExtension("not-an-extension", 3)
 			s.ExtraProps = map[string]interface{}{"extra": []interface{}{}}
 			return s, func() interface{} { return &spec.Schema{} }
-		}, nil},
+		}, nil, nil},
 		{"schema.validations+enum+default+example", func() (interface{}, func() interface{}) {
 			s := spec.Int64Property().WithMinimum(0, true).WithMaximum(0, false).WithEnum(1, "a", nil).WithDefault(weird).WithExample(map[string]interface{}{weird: weird})
 			return s, func() interface{} { return &spec.Schema{} }
-		}, nil},
+		}, nil, nil},
 		{"schema.allOf+required+discriminator+xml", func() (interface{}, func() interface{}) {
 			s := spec.ComposedSchema(*spec.RefProperty("#/definitions/A"), *spec.StringProperty()).WithRequired("a", "a", weird).WithDiscriminator(weird).AsWrappedXML().WithXMLName(weird)
 			return s, func() interface{} { return &spec.Schema{} }
-		}, nil},
+		}, nil, nil},
 		{"schema.patternProperties regex", func() (interface{}, func() interface{}) {
 			s := &spec.Schema{}
 			s.PatternProperties = spec.SchemaProperties{"^a\\d+$": *spec.StringProperty(), "\"": *spec.BoolProperty()}
 			s.Dependencies = spec.Dependencies{weird: spec.SchemaOrStringArray{Property: []string{weird}}}
 			return s, func() interface{} { return &spec.Schema{} }
-		}, nil},
+		}, nil, nil},
 		{"parameter.builders", func() (interface{}, func() interface{}) {
 			p := spec.QueryParam(weird).Typed("array", "").CollectionOf(spec.NewItems().Typed("string", "date"), "csv").WithDescription(weird).AsRequired().AllowsEmptyValues()
 			p.AddExtension("x-"+weird, weird)
 			p.WithDefault([]interface{}{}).WithEnum("a").WithMaxItems(0).WithMinLength(0)
 			return p, func() interface{} { return &spec.Parameter{} }
-		}, nil},
+		}, nil, nil},
 		{"parameter.body", func() (interface{}, func() interface{}) {
 			p := spec.BodyParam("b", spec.RefSchema("#/definitions/"+weird)).AsOptional()
 			return p, func() interface{} { return &spec.Parameter{} }
-		}, nil},
+		}, nil, nil},
 		{"header.builders", func() (interface{}, func() interface{}) {
 			h := spec.ResponseHeader().Typed("integer", "int64").WithDescription(weird).WithMaximum(0, true).WithDefault(0)
 			h.AddExtension("x-h", weird)
 			return h, func() interface{} { return &spec.Header{} }
-		}, nil},
+		}, nil, nil},
 		{"items.builders", func() (interface{}, func() interface{}) {
 			i := spec.NewItems().Typed("array", "").CollectionOf(spec.NewItems().Typed("string", ""), "pipes").WithEnum("x", "x").AsNullable()
 			i.AddExtension("x-i", []interface{}{})
 			return i, func() interface{} { return &spec.Items{} }
-		}, nil},
+		}, nil, nil},
 		{"response.builders", func() (interface{}, func() interface{}) {
 			r := spec.NewResponse().WithDescription("").WithSchema(spec.StringProperty()).AddHeader(weird, spec.ResponseHeader().Typed("string", "")).AddExample("application/json", map[string]interface{}{"a": nil})
 			r.AddExtension("x-r", 1)
 			return r, func() interface{} { return &spec.Response{} }
-		}, nil},
+		}, nil, nil},
 		{"responses+operation.builders", func() (interface{}, func() interface{}) {
 			op := spec.NewOperation(weird).WithTags("a", "a").WithConsumes("x/y").WithProduces().WithSummary(weird).Deprecate().
 				AddParam(spec.QueryParam("q")).AddParam(spec.QueryParam("q")).AddParam(spec.HeaderParam("q")).
@@ -100,24 +102,24 @@ func builderProgs() []builderProg {
 			op.AddExtension("x-op", weird)
 			op.Responses.AddExtension("x-resp", 1)
 			return op, func() interface{} { return &spec.Operation{} }
-		}, nil},
+		}, nil, nil},
 		{"securityScheme.builders", func() (interface{}, func() interface{}) {
 			s := spec.OAuth2AccessToken("http://a.example", "http://t.example")
 			s.AddScope(weird, weird)
 			s.AddScope(weird, "again")
 			s.AddExtension("x-s", true)
 			return s, func() interface{} { return &spec.SecurityScheme{} }
-		}, nil},
+		}, nil, nil},
 		{"securityScheme.apikey+basic", func() (interface{}, func() interface{}) {
 			s := spec.APIKeyAuth(weird, "header")
 			_ = spec.BasicAuth()
 			return s, func() interface{} { return &spec.SecurityScheme{} }
-		}, nil},
+		}, nil, nil},
 		{"tag+info+license.builders", func() (interface{}, func() interface{}) {
 			t := spec.NewTag(weird, weird, &spec.ExternalDocumentation{Description: weird, URL: "http://e.example"})
 			t.AddExtension("x-t", weird)
 			return &t, func() interface{} { return &spec.Tag{} }
-		}, nil},
+		}, nil, nil},
 		{"swagger.assembled", func() (interface{}, func() interface{}) {
 			sw := &spec.Swagger{}
 			sw.Swagger = "2.0"
@@ -130,40 +132,40 @@ func builderProgs() []builderProg {
 			sw.Security = []map[string][]string{{"k": {}}, {}}
 			sw.AddExtension("x-root", nil)
 			return sw, func() interface{} { return &spec.Swagger{} }
-		}, nil},
+		}, nil, nil},
 		{"schema with an unencodable example + unknown keyword", func() (interface{}, func() interface{}) {
 			s := spec.StringProperty().WithDiscriminator("kind").AsReadOnly().WithExternalDocs("d", "http://e.example").WithExample(math.NaN())
 			s.ExtraProps = map[string]interface{}{"const": 1}
 			return s, func() interface{} { return &spec.Schema{} }
-		}, []string{"discriminator", "readOnly", "externalDocs", "const", "type"}},
+		}, []string{"discriminator", "readOnly", "externalDocs", "const", "type"}, nil},
 		{"schema with an unencodable extension", func() (interface{}, func() interface{}) {
 			s := spec.StringProperty().WithTitle("t").WithDiscriminator("kind")
 			s.AddExtension("x-bad", map[interface{}]interface{}{1: "a"})
 			s.ExtraProps = map[string]interface{}{"const": 1}
 			return s, func() interface{} { return &spec.Schema{} }
-		}, []string{"title", "discriminator", "const"}},
+		}, []string{"title", "discriminator", "const"}, nil},
 		{"parameter with an unencodable default", func() (interface{}, func() interface{}) {
 			p := spec.QueryParam("q").Typed("number", "").WithDefault(math.Inf(1)).WithDescription("d")
 			p.AddExtension("x-p", 1)
 			return p, func() interface{} { return &spec.Parameter{} }
-		}, []string{"name", "in", "type", "description", "x-p"}},
+		}, []string{"name", "in", "type", "description", "x-p"}, nil},
 		{"response with an unencodable example", func() (interface{}, func() interface{}) {
 			r := spec.NewResponse().WithDescription("d").WithSchema(spec.StringProperty()).AddExample("application/json", make(chan int))
 			r.AddExtension("x-r", 1)
 			return r, func() interface{} { return &spec.Response{} }
-		}, []string{"description", "schema", "x-r"}},
+		}, []string{"description", "schema", "x-r"}, nil},
 		{"operation with an unencodable extension", func() (interface{}, func() interface{}) {
 			op := spec.NewOperation("id").WithSummary("s").RespondsWith(200, spec.NewResponse().WithDescription("ok"))
 			op.AddExtension("x-op", func() {})
 			return op, func() interface{} { return &spec.Operation{} }
-		}, []string{"operationId", "summary", "responses"}},
+		}, []string{"operationId", "summary", "responses"}, nil},
 		{"pathItem.assembled", func() (interface{}, func() interface{}) {
 			pi := &spec.PathItem{}
 			pi.Get = spec.NewOperation("g").RespondsWith(200, spec.NewResponse().WithDescription("ok"))
 			pi.Parameters = []spec.Parameter{*spec.PathParam("id").Typed("string", "")}
 			pi.AddExtension("x-pi", weird)
 			return pi, func() interface{} { return &spec.PathItem{} }
-		}, nil},
+		}, nil, nil},
 	}
 }
 
@@ -215,6 +217,16 @@ func runBuilder(i int, p builderProg) (o *builderObs) {
 		for _, m := range p.must {
 			if _, ok := top[m]; !ok {
 				o.OK, o.Why = false, "encoding succeeded but the member "+m+" that the value holds is missing from the text"
+				return o
+			}
+		}
+	}
+	if len(p.want) > 0 {
+		var top map[string]json.RawMessage
+		_ = json.Unmarshal(b, &top)
+		for m, w := range p.want {
+			if !jsonEq(top[m], []byte(w)) {
+				o.OK, o.Why = false, "the model holds "+m+" = "+w+", the text says "+ascii(trim(string(top[m]), 120))
 				return o
 			}
 		}
@@ -364,7 +376,7 @@ func allFieldsProg(name string, mk func() interface{}, fresh func() interface{},
 			fix(v)
 		}
 		return v, fresh
-	}, must}
+	}, must, nil}
 }
 
 // fixExt gives the extension maps a legal key (populate uses "k").
@@ -419,11 +431,28 @@ func allFieldsProgs() []builderProg {
 			func(v interface{}) { c := v.(*spec.ContactInfo); fixExt(&c.VendorExtensible) }),
 		allFieldsProg("License", func() interface{} { return &spec.License{} }, func() interface{} { return &spec.License{} },
 			func(v interface{}) { l := v.(*spec.License); fixExt(&l.VendorExtensible) }),
+		// boolean-or-schema unions assembled by hand: the schema is what the model holds, whatever the Allows flag says
+		{"schema unions built as &SchemaOrBool{Schema: s}", func() (interface{}, func() interface{}) {
+			s := &spec.Schema{}
+			s.Typed("object", "")
+			s.AdditionalProperties = &spec.SchemaOrBool{Schema: spec.StringProperty()}
+			s.AdditionalItems = &spec.SchemaOrBool{Schema: spec.BoolProperty()}
+			s.Items = &spec.SchemaOrArray{Schemas: []spec.Schema{*spec.StringProperty()}}
+			s.Dependencies = spec.Dependencies{"a": {Schema: spec.Int32Property()}, "b": {Property: []string{"c"}}}
+			return s, func() interface{} { return &spec.Schema{} }
+		}, nil, map[string]string{"additionalProperties": `{"type":"string"}`, "additionalItems": `{"type":"boolean"}`,
+			"items": `[{"type":"string"}]`, "dependencies": `{"a":{"type":"integer","format":"int32"},"b":["c"]}`}},
+		{"schema unions built as &SchemaOrBool{Allows: true} / {Allows: false}", func() (interface{}, func() interface{}) {
+			s := &spec.Schema{}
+			s.AdditionalProperties = &spec.SchemaOrBool{Allows: true}
+			s.AdditionalItems = &spec.SchemaOrBool{}
+			return s, func() interface{} { return &spec.Schema{} }
+		}, nil, map[string]string{"additionalProperties": `true`, "additionalItems": `false`}},
 		// a Paths value built in Go whose map has a key that is no path and equals an extension name
 		{"paths built with a key that equals an extension name", func() (interface{}, func() interface{}) {
 			p := &spec.Paths{Paths: map[string]spec.PathItem{"/a": {}, "x-internal": {}}}
 			p.AddExtension("x-internal", true)
 			return p, func() interface{} { return &spec.Paths{} }
-		}, nil},
+		}, nil, nil},
 	}
 }
